@@ -200,6 +200,7 @@ pub fn add_prf_requests(r: &mut Rng, c: &mut Ceremony) {
                 OpKind::Register(s) => s.prf = Some(PrfIn { eval: r.bool().then(|| gen_prf_vals(r)), by_cred: None }),
                 OpKind::Authenticate(s) => s.prf = Some(PrfIn { eval: Some(gen_prf_vals(r)), by_cred: None }),
                 OpKind::MakeCredential(s) => {
+                    s.hmac_secret_mc = r.chance(1, 3);
                     if r.bool() {
                         s.hmac_secret = Some(true);
                     } else {
@@ -250,7 +251,7 @@ impl Family for C06Family {
             let a = r.usize(n);
             let kind = match r.below(3) {
                 0 => OpKind::GetInfo { via_trait: false },
-                1 => OpKind::U2fRegister { challenge: r.bytes(32), application: r.bytes(32), handle: r.bytes_range(1, 64), le: r.bool() },
+                1 => OpKind::U2fRegister { challenge: r.bytes(32), application: r.bytes(32), handle: if r.chance(1, 4) { Vec::new() } else { r.bytes_range(1, 64) }, le: r.bool() },
                 _ => OpKind::U2fAuthenticate { challenge: r.bytes(32), application: None, handle: IdRef::Last, counter: r.next_u64() as u32, presence: 1, p1: 3, le: false },
             };
             let pos = r.usize(c.actors[a].ops.len() + 1);
